@@ -6,9 +6,8 @@ THEOREMS = [
     "C13_resolved_only_when_done",
     "C13_outputs_sound",
     "C13_no_contradiction",
-    "C13_same_outcome_at_terminal",
-    "C13_reexec_contract_closed_outcome",
     "C13_progress_refuted",
+    "C13_dust_failback_lost_refuted",
     "C13_no_lost_progress_refuted",
 ]
 MODULE = "LV.Arb.RestartProps"
@@ -226,7 +225,7 @@ def run(ctx):
             cls = sig.split(" ")[1]
             sigs[cls] = sigs.get(cls, 0) + 1
             key = (thm, sig)
-            if key in reported:
+            if key in reported or sum(1 for k in reported if k[1].split(" ")[1] == cls) >= 2:
                 continue
             reported.add(key)
             ctx.violation("impl_violates_predicate", thm,
